@@ -8,6 +8,8 @@
 
   sched|<dag>|<order>            -> topo=<0|1> create=<0|1|-> sched=<g;g;…>
                                     (topo: Topo/Gens holds; create: CreateFirst holds; sched: the model's schedule)
+  gensok|<dag>|<order>           -> topo=<0|1>    (checkGens on the REAL visit_nodes / visit_node_generations output; <dag> is the
+                                    DAG contracted to the executed ops: p>o iff p reaches o through skipped nodes only)
   accepts|<dag>|<order>|<trace>  -> hyp-fails | ok | reject      (acceptsObs on the model's schedule)
   acceptsraw|<dag>|<sched as gen:…>|<trace> -> ok | reject         (acceptsObs on a given schedule, no hypothesis check)
   keys|<nb>                      -> n=<numTasks> keys=<k;k;…>      (ChunkKeys.__iter__)
@@ -93,6 +95,14 @@ def handleSched (parts : List String) : String :=
     s!"topo={if topo then 1 else 0} create={cr} sched={showSched (genSchedule pd.dag gens)}"
   | _ => "bad-request"
 
+/-- `checkGens` on a schedule the tree under test really hands out (dag = the DAG contracted to executed ops) -/
+def handleGensOk (parts : List String) : String :=
+  match parts with
+  | [dag, order] =>
+    let pd := parseDag dag
+    if checkGens pd.dag (parseOrder order) then "topo=1" else "topo=0"
+  | _ => "bad-request"
+
 def handleAccepts (parts : List String) : String :=
   match parts with
   | [dag, order, trace] =>
@@ -118,6 +128,7 @@ def showKeys (ks : List (List Nat)) : String := ";".intercalate (ks.map (fun k =
 def handle (line : String) : String :=
   match line.splitOn "|" with
   | "sched" :: rest => handleSched rest
+  | "gensok" :: rest => handleGensOk rest
   | "accepts" :: rest => handleAccepts rest
   | "acceptsraw" :: rest => handleAcceptsRaw rest
   | ["keys", nb] =>
